@@ -156,3 +156,52 @@ package scale
 //@   model real
 //@   ensures [compose] result == q.Src.Unmap(q.Dest.Map(x))
 //@   assigns nothing
+
+// ---------------------------------------------------------------------
+// Linear ticks (C17). spacingAtLevel in model real (pow uninterpreted,
+// positive for a positive base).
+
+//@ func Linear.ebase
+//@   inline
+//@   assigns nothing
+
+//@ func Linear.guessLevel
+//@   inline
+//@   assigns nothing
+
+//@ func Linear.spacingAtLevel
+//@   model real
+//@   requires s != nil && (s.Base == 0 || s.Base >= 2) && s.Min <= s.Max
+//@   let eb = s.Base == 0 ? 10 : s.Base
+//@   let slack = (s.Max - s.Min) * 1e-10
+//@   ensures [spacing]  spacing == pow(eb, floor(level / 2.0)) * ((s.Base == 0 && level % 2 != 0) ? 5 : 1)
+//@   ensures [positive] spacing > 0
+//@   ensures [inside]   !roundOut ==> firstN * spacing >= s.Min - slack && lastN * spacing <= s.Max + slack
+//@   ensures [complete] !roundOut ==> (firstN - 1) * spacing < s.Min - slack && (lastN + 1) * spacing > s.Max + slack
+//@   ensures [cover]    roundOut ==> firstN * spacing <= s.Min + slack && lastN * spacing >= s.Max - slack
+//@   ensures [snug]     roundOut ==> (firstN + 1) * spacing > s.Min + slack && (lastN - 1) * spacing < s.Max - slack
+//@   assigns nothing
+
+//@ func linearTicker.CountTicks
+//@   model real
+//@   requires t.s != nil && (t.s.Base == 0 || t.s.Base >= 2) && t.s.Min <= t.s.Max
+//@   ensures [nonneg-range] true
+//@   assigns nothing
+
+// Nice is verified in model xreal (NaN / +-Inf); spacingAtLevel is executed
+// in place there (its own contract is proved in model real).
+//@ assume func TickOptions.FindLevel@xreal
+//@   model xreal
+//@   trusted no guarantee used: any level may be returned
+//@   ensures true
+//@   assigns nothing
+
+//@ func Linear.Nice
+//@   model xreal
+//@   requires s != nil && isfinite(s.Min) && isfinite(s.Max) && (s.Base == 0 || s.Base >= 2)
+//@   let lo = s.Min == s.Max ? s.Min - 0.5 : min(s.Min, s.Max)
+//@   let hi = s.Min == s.Max ? s.Max + 0.5 : max(s.Min, s.Max)
+//@   ensures [finite]    isfinite(s.Min) && isfinite(s.Max)
+//@   ensures [no-shrink] s.Min <= lo + (hi - lo) * 1e-10 && s.Max >= hi - (hi - lo) * 1e-10
+//@   ensures [frame]     s.Base == old(s.Base) && s.Clamp == old(s.Clamp)
+//@   assigns *s
